@@ -1,4 +1,6 @@
 import OrbitModel.Proofs.EmitterFifo
+import OrbitModel.Proofs.GenEqWrite
+import OrbitModel.Proofs.GenEqLoadComplete
 import OrbitModel.Proofs.EmitterSettle
 import OrbitModel.Model.Store
 /-!
@@ -60,5 +62,10 @@ theorem pinned_tree_reorders :
     (run true (init 1) overtakeSchedule).delivered = [1, 3, 2] ∧
     (run false (init 1) (overtakeSchedule ++ [.g2, .g2, .recv])).delivered = [1, 2, 3] :=
   ⟨pinned_overtake, repaired_in_order⟩
+
+/-- the write path in the Go text of this run performs its effects in the order the models assume:
+append and head persisted under the write mutex, THEN the view, THEN the write event -/
+theorem write_path_order_tied_to_go_text : Gen.addOperationOrder = Order.addOperation ∧
+    Gen.loadCompleteOrder = Order.loadComplete := ⟨gen_addOperation_order, gen_loadComplete_order⟩
 
 end Orbit.C16
